@@ -156,6 +156,13 @@ def c04_cases(rng, tier):
                 s = mkstr(alg, t, m, rbytes(rng, 16), rbytes(rng, 32))
                 cs.append(Case("pwhash_parse %s" % shex(s), cls="pwhash_parse/large-costs", expect=tot, meta={"no_sodium": True, "why": "well-formed string with m=%d KiB, t=%d" % (m, t)}))
                 cs.append(Case("pwhash_needs_rehash %s %d %d" % (shex(s), min(t, 4294967295), 1024 * m), cls="pwhash_needs_rehash/large-costs", expect=tot, meta={"no_sodium": True}))
+    # stored hashes of EVERY length 0..=24 (and a few larger) in otherwise well-formed strings, opened through both routes: the classic
+    # verifier and `PwHash::from_string(..).verify(..)`, which hashes into the stored hash's own length (small costs: m=8, t=1)
+    for alg in ("argon2id", "argon2i"):
+        for hl in list(range(0, 25)) + [31, 32, 33, 64, 128]:
+            s = mkstr(alg, 3 if alg == "argon2i" else 1, 8, rbytes(rng, 16), rbytes(rng, hl))
+            cs.append(Case("pwhash_str_verify %s %s" % (shex(s), hx(b"pw")), cls="pwhash_str_verify/hash-length", expect=tot, meta={"no_sodium": True}))
+            cs.append(Case("pwhash_objverify_str %s %s" % (shex(s), hx(b"pw")), cls="pwhash_objverify_str/hash-length", expect=tot, meta={"no_sodium": True, "why": "object verify of a string whose stored hash has %d bytes" % hl}))
     for s in nonascii_strings(rng, 400 if tier == "quick" else 6000):
         bound = 8 * len(s.encode()) + 65536 + 1024 * 64 * 2
         cs.append(Case("pwhash_parse %s" % shex(s), cls="pwhash_parse/non-ascii", expect=tot, meta={"alloc_bound": bound, "no_sodium": True}))
